@@ -321,6 +321,7 @@ func (w *c08World) connect(cl *c08Client, node int) bool {
 	cl.cur = &c08Conn{mc: mc, node: node, id: mc.ConnID, hs: sp, lastKA: sp, chain: true}
 	cl.unsure = ""
 	cl.cleaned = 0
+	cl.cloudDirty = ""
 	cl.lastNode = node
 	w.ev(cl, "c"+strings.ToUpper(string(rune('a'+node))), fmt.Sprintf("connect@%s=%s", n.NodeID, mc.ConnID))
 	w.run.Count("handshakes", 1)
@@ -352,6 +353,7 @@ func (w *c08World) relogin(cl *c08Client) bool {
 	c.hs = c08Span{c0, r0}
 	c.lastKA = c.hs
 	c.chain = true
+	cl.cloudDirty = ""
 	w.ev(cl, "re", "relogin "+c.id)
 	w.run.Count("relogins", 1)
 	return true
@@ -375,6 +377,7 @@ func (w *c08World) heartbeat(cl *c08Client) bool {
 		c.chain = false
 	}
 	c.lastKA = c08Span{c0, r0}
+	cl.cloudDirty = "" // EnsureClientOnline rebuilds a missing runtime state
 	w.ev(cl, "hb", "heartbeat "+c.id)
 	w.run.Count("heartbeats", 1)
 	return true
@@ -429,6 +432,10 @@ func (w *c08World) takeover(cl, by *c08Client) bool {
 	by.cur, by.cleaned, by.lastNode, by.cloudDirty = c, 0, c.node, ""
 	cl.cur = nil
 	cl.lost = append(cl.lost, c)
+	// clean tree: the replaced identity's runtime state is neither rewritten nor removed
+	// (it lingers until its 90 s lifetime ends, also after the connection closes); the
+	// cloud view of cl is not judged until cl's next own handshake
+	cl.cloudDirty = "identity_replaced"
 	w.ev(by, "ri", fmt.Sprintf("relogin-as-c%d on c%d's connection %s@%s", by.idx, cl.idx, c.id, w.nodes[c.node].NodeID))
 	w.run.Count("identity_changes|"+w.be.name, 1)
 	return true
@@ -629,6 +636,13 @@ func (w *c08World) tunnelConn(cl *c08Client, node int) bool {
 		mc.CloseByPeer()
 		w.harnessError("tunnel-type handshake refused: %v", lerr)
 		return false
+	}
+	if cl.cloudDirty == "" {
+		// clean tree: a tunnel-type handshake rewrites the client's runtime state to the
+		// tunnel connection and closing that connection removes the state; the next
+		// heartbeat / handshake on the control connection restores it. The cloud view is
+		// not judged in between.
+		cl.cloudDirty = "tunnel_conn"
 	}
 	w.ev(cl, "t"+strings.ToUpper(string(rune('a'+node))), fmt.Sprintf("tunnel-conn@%s=%s", n.NodeID, mc.ConnID))
 	w.check()
